@@ -3,5 +3,6 @@ CONSTANTS
   Shapes <- MShapes
   MaxRows = 2
   FaultRows = {0, 1, 2}
+  ExportDrainsOnError = TRUE
 PROPERTIES EventuallyAllTerminated Answered
 CHECK_DEADLOCK FALSE
